@@ -74,6 +74,11 @@ fn replay_known(out: &mut Out) {
             vec![vec![i(2)], vec![i(3)]],
         ),
         (
+            "wheres_then_unwind",
+            "MATCH (n:A) WHERE n.p0 = 1 MATCH (m:B) WHERE m.p0 = 2 UNWIND [4] AS x RETURN id(n) AS x",
+            vec![vec![i(1)]],
+        ),
+        (
             "collect_distinct_entities",
             "MATCH (n:A) RETURN size(collect(DISTINCT n)) AS x",
             vec![vec![i(2)]],
